@@ -257,6 +257,19 @@ Definition view_ok (rs : list row) (i : Z) : bool :=
   let got := zsort (map (fun r => rget 3 r * 10000000000 + rget 4 r) (filter (fun r => Z.eqb (rget 2 r) i) (of_kind 10 rs))) in
   zlist_eqb want got.
 
+(* the invariants of C05_claims_below_owner and C05_claims_below_history, looked for on the implementation:
+   when faults stop, no live node holds a record of a member at an incarnation above every counter that member
+   itself reached — its current one if it is running (kind 9 rows), and the one each of its earlier lives ended
+   with (kind 17 rows: node, incarnation when the process was stopped) *)
+Definition reached (rs : list row) (x : Z) : list Z :=
+  map (rget 3) (filter (fun r => Z.eqb (rget 2 r) x) (of_kind 9 rs ++ of_kind 17 rs)).
+Definition mon_below_owner (rs : list row) : verdict :=
+  first_some (fun r =>
+    match reached rs (rget 3 r) with
+    | b :: bs => if fold_left Z.max bs b <? rget 5 r then mkV 522 (Z.to_N (rget 2 r)) else vok
+    | [] => vok
+    end) (of_kind 8 rs).
+
 Definition mon_C05 (rs : list row) : verdict :=
   let ids := live_ids rs in
   if negb (connected (lists rs) ids) then vok      (* the property's precondition does not hold *)
@@ -282,5 +295,5 @@ Definition check_case (sel : Z) (cs : list int * (list (list int) * list (list i
           (vthen (if on 3 then mon_C03_detect c rs else vok)
           (vthen (if on 3 then mon_C03_sched c rs else vok)
                  (corr_sched c rs)))
-        else if on 5 then mon_C05 rs else vok
+        else if on 5 then vthen (mon_below_owner rs) (mon_C05 rs) else vok
   end.
